@@ -288,12 +288,23 @@ void run_t(vf::Ctx& c)
         std::vector<T> w = vf::gen_weights<T>(t, channels);
         w.resize(channels, T(1));
         T const beta = T(0.25), minw = t.flag() ? T(0) : T(0.05) / T(channels);
-        vf::PwcMap<T> map{&fam, nullptr, nullptr};
+        // some density requests answer with a non-finite jacobian (a threshold in a phase-space map): f*w is not finite
+        // there, the evaluation counts as non-zero but not as finite and contributes nothing
+        std::vector<T> poison;
+        bool const poisoned_map = t.pick(3) == 0;
+        if (poisoned_map)
+        {
+            std::size_t total = 0;
+            for (auto n : calls) { total += n; }
+            for (std::size_t i = 0; i != total; ++i) { poison.push_back((i % 5 == 2) ? std::numeric_limits<T>::infinity() : ((i % 11 == 3) ? std::numeric_limits<T>::quiet_NaN() : T(-1))); }
+        }
+        vf::PwcMap<T> map{&fam, nullptr, poisoned_map ? &poison : nullptr};
         auto chk = hep::make_multi_channel_chkpt<T>(w, minw, beta, std::mt19937(seed));
         decltype(chk) out = chk;
         if (log.with_dist) { hep::multi_channel_integrand<T, Fn<T>, vf::PwcMap<T>, true> ig(fn, fam.dims, map, fam.map_dims, channels, params); out = hep::multi_channel(ig, calls, chk, cut); }
         else { hep::multi_channel_integrand<T, Fn<T>, vf::PwcMap<T>, false> ig(fn, fam.dims, map, fam.map_dims, channels, params); out = hep::multi_channel(ig, calls, chk, cut); }
-        c.desc << ' ' << fam.describe() << " weights=" << vf::show(w) << " min=" << vf::show(minw);
+        c.desc << ' ' << fam.describe() << " weights=" << vf::show(w) << " min=" << vf::show(minw) << (poisoned_map ? " non-finite-jacobians" : "");
+        if (poisoned_map) { c.label("non-finite-weights"); }
         VF_CHECK(c, out.results().size() == calls.size() && log.cuts.size() == calls.size(), "C02:iterations", "performed " << out.results().size());
         std::size_t b = 0;
         for (std::size_t k = 0; k != calls.size(); ++k)
@@ -317,6 +328,7 @@ void run_t(vf::Ctx& c)
                 {
                     if (alpha[j] != T(0)) { dens[j] = cf * fam.density(j, x); tot += static_cast<long double>(alpha[j]) * dens[j]; }
                 }
+                if (!std::isfinite(r.w)) { continue; } // cannot happen here (val would not be finite), kept for clarity
                 long double const wref = static_cast<long double>(cf) / tot;
                 long double const wtol = (4 + 2 * channels) * vf::eps<T>() * std::fabs(wref);
                 VF_CHECK(c, std::fabs(static_cast<long double>(r.w) - wref) <= wtol, "C02:multi-channel-weight", "iteration " << k << ": weight "
@@ -373,7 +385,9 @@ void formula_layer(vf::Ctx& c)
     case 3: N = 2 + t.range(0, 100000000); break;
     default: N = std::size_t(3037000499ull) + t.range(0, 4); break;             // N(N-1) around 2^63
     }
-    long double const E = (t.flag() ? -1 : 1) * std::pow(10.0L, 4 * t.unit() - 2);
+    // magnitudes from 10^-2..10^2 up to a third of the exponent range of T (squares and N * squares stay finite)
+    long double const span = t.flag() ? 2.0L : static_cast<long double>(std::numeric_limits<T>::max_exponent10) / 3 - 8;
+    long double const E = (t.flag() ? -1 : 1) * std::pow(10.0L, span * (2 * t.unit() - 1));
     long double const rel = std::pow(10.0L, -2 + 3 * t.unit());
     long double const S = std::fabs(E) * rel; // error of the mean
     T const sum = static_cast<T>(static_cast<long double>(N) * E);
@@ -395,6 +409,7 @@ void formula_layer(vf::Ctx& c)
         c.label("formula-layer-judged");
     }
     if (N > (std::size_t(1) << 32)) { c.label("N>2^32"); }
+    if (std::fabs(std::log10(std::fabs(E))) > 300) { c.label("beyond-double-range"); }
     c.label("formula-layer");
     c.nontrivial = N > (std::size_t(1) << 32) && var > 64 * tol;
     ++c.sub;
